@@ -41,7 +41,13 @@ type fakeIndex struct {
 	n     int // number of documents = 1<<k ; lids 1..n ; MID(lid) = 1000 + n - lid
 }
 
-func (f *fakeIndex) GetValByTID(tid uint32) []byte { return []byte(f.props[tid].V) }
+// The pseudo TID len(props) is the `_all_` token every document carries.
+func (f *fakeIndex) GetValByTID(tid uint32) []byte {
+	if int(tid) == len(f.props) {
+		return nil
+	}
+	return []byte(f.props[tid].V)
+}
 
 func (f *fakeIndex) GetTIDsByTokenExpr(t parser.Token) ([]uint32, error) {
 	var out []uint32
@@ -60,6 +66,9 @@ func (f *fakeIndex) GetTIDsByTokenExpr(t parser.Token) ([]uint32, error) {
 				out = append(out, uint32(i))
 			}
 		}
+		if tok.Field == "_all_" && model.Glob(p, "") {
+			out = append(out, uint32(len(f.props)))
+		}
 	default:
 		return nil, fmt.Errorf("fake index: unexpected token %T", t)
 	}
@@ -76,7 +85,7 @@ func (f *fakeIndex) GetLIDsFromTIDs(tids []uint32, _ lids.Counter, minLID, maxLI
 			if lid < minLID || lid > maxLID {
 				continue
 			}
-			if f.assignmentOf(lid)>>tid&1 == 1 {
+			if int(tid) == len(f.props) || f.assignmentOf(lid)>>tid&1 == 1 {
 				post = append(post, lid)
 			}
 		}
@@ -220,24 +229,40 @@ type TreeCase struct {
 	Style model.RenderStyle `json:"style"`
 	Lang  string            `json:"lang"` // seqql | legacy
 	Asc   bool              `json:"asc"`
+	// Forms: how atom i is written - 'e' (or absent) `f:v`, 'w' the lone wildcard `f:*`
+	// (true iff the document has the field at all - here: iff it has the proposition's
+	// token), 'p' the prefix wildcard `f:v*`, 'a' match-all (`*` / `_all_:*`, constant true)
+	Forms string `json:"forms,omitempty"`
 }
 
-func parsePrefix(s string, pos *int, props []model.Tok) *model.Q {
+func parsePrefix(s string, pos *int, props []model.Tok, forms string) *model.Q {
 	c := s[*pos]
 	*pos++
 	switch c {
 	case '&':
-		a := parsePrefix(s, pos, props)
-		b := parsePrefix(s, pos, props)
+		a := parsePrefix(s, pos, props, forms)
+		b := parsePrefix(s, pos, props, forms)
 		return model.And(a, b)
 	case '|':
-		a := parsePrefix(s, pos, props)
-		b := parsePrefix(s, pos, props)
+		a := parsePrefix(s, pos, props, forms)
+		b := parsePrefix(s, pos, props, forms)
 		return model.Or(a, b)
 	case '!':
-		return model.Not(parsePrefix(s, pos, props))
+		return model.Not(parsePrefix(s, pos, props, forms))
 	default:
 		p := props[c-'0']
+		form := byte('e')
+		if int(c-'0') < len(forms) {
+			form = forms[c-'0']
+		}
+		switch form {
+		case 'w':
+			return model.Lit(p.F, model.Pattern{{Wild: true}})
+		case 'p':
+			return model.Lit(p.F, model.Pattern{{Text: p.V}, {Wild: true}})
+		case 'a':
+			return model.All()
+		}
 		return model.Lit(p.F, model.Exact(p.V))
 	}
 }
@@ -266,8 +291,11 @@ func enumTrees(maxOps, k int) [][]string {
 func runTree(c TreeCase) (evid.Result, error) {
 	res := evid.Result{}
 	pos := 0
-	q := parsePrefix(c.Tree, &pos, atoms3)
+	q := parsePrefix(c.Tree, &pos, atoms3, c.Forms)
 	want := modelTable(q, atoms3)
+	if c.Forms != "" {
+		res.Labels = append(res.Labels, "atom-forms:"+c.Forms)
+	}
 	var text string
 	var ast *parser.ASTNode
 	var err error
@@ -356,6 +384,24 @@ func TestEnumTrees(t *testing.T) {
 	r.Note("enum_trees", total)
 	styles := []model.RenderStyle{{Parens: 0}, {Parens: 2, Upper: true, Tight: true}}
 	evid.Enum(t, func(yield func(TreeCase) bool) {
+		// second pass, one operator less: atoms written as lone / prefix wildcards and as
+		// match-all (SeqQL only for the latter), in every position of every tree
+		for _, forms := range []string{"wpa", "awe", "wwp"} {
+			for ops, ts := range trees[:len(trees)-1] {
+				for i, tr := range ts {
+					for _, lang := range []string{"seqql", "legacy"} {
+						if lang == "legacy" && strings.Contains(forms, "a") {
+							continue
+						}
+						st := styles[(i+ops)%2]
+						st.Quote = i % 4
+						if !yield(TreeCase{Tree: tr, Style: st, Lang: lang, Asc: i%2 == 0, Forms: forms}) {
+							return
+						}
+					}
+				}
+			}
+		}
 		for ops, ts := range trees {
 			for i, tr := range ts {
 				for si, st := range styles {
@@ -391,7 +437,13 @@ var meaningMapping = seq.Mapping{
 }
 
 func genMeaningAtom(t *rapid.T) *model.Q {
-	switch rapid.IntRange(0, 7).Draw(t, "atom") {
+	switch rapid.IntRange(0, 10).Draw(t, "atom") {
+	case 8: // lone wildcard: the document has the field at all
+		return model.Lit(rapid.SampledFrom([]string{"kw", "tx"}).Draw(t, "wfield"), model.Pattern{{Wild: true}})
+	case 9:
+		return model.All()
+	case 10: // infix wildcard
+		return model.Lit("kw", model.Pattern{{Text: "v"}, {Wild: true}, {Text: "2"}})
 	case 0:
 		return model.Lit("kw", model.Exact("v0"))
 	case 1:
